@@ -400,6 +400,41 @@ fn check_diags(src: &str, d: &Diagnostics<'_>, stage: &str) -> Result<(), (Strin
     Ok(())
 }
 
+/// The lexer on its own (token spans, progress, its diagnostics' spans) — for texts too long to
+/// push through the parser's diagnostics rendering.
+pub fn lexer_total(ctx: &Ctx, src: &str) -> Result<FrontStats, (String, String)> {
+    ctx.reset();
+    let arena = &ctx.main;
+    let mut st = FrontStats::default();
+    let r = catch_unwind(AssertUnwindSafe(|| -> Result<(), (String, String)> {
+        let mut lexer = Lexer::new(src, arena);
+        let mut prev_end = 0usize;
+        let mut n = 0usize;
+        for tok in &mut lexer {
+            n += 1;
+            if n > src.len() + 2 {
+                return Err(("lexer-no-progress".into(), format!("more than {} tokens", src.len() + 2)));
+            }
+            let (s, e) = (tok.span.start, tok.span.end);
+            if let Some(w) = span_ok(src, s, e) {
+                return Err((format!("token-{w}"), format!("token {:?} span {s}..{e} len {}", tok.token, src.len())));
+            }
+            if s < prev_end {
+                return Err(("token-spans-not-monotone".into(), format!("token {:?} span {s}..{e} after end {prev_end}", tok.token)));
+            }
+            prev_end = e;
+        }
+        st.tokens = n;
+        st.diagnostics = lexer.errors.diagnostics.len();
+        check_diags(src, &lexer.errors, "lexical")
+    }));
+    match r {
+        Ok(Ok(())) => Ok(st),
+        Ok(Err(e)) => Err(e),
+        Err(_) => Err((format!("front-end-panic: {}", take_panic()), String::new())),
+    }
+}
+
 /// Lexer on its own, parser, resolver (only when the parse is clean, as the CLI does), and
 /// rendering of whatever diagnostics set results.
 pub fn front_total(ctx: &Ctx, src: &str) -> Result<FrontStats, (String, String)> {
